@@ -10,6 +10,9 @@ CLAIMED = {
     "C17": ("TLA+ spec (Grouping.tla) model-checked with TLC over all rooted labelled trees x edge listings; real toposort_edges / PAFScorer replayed over the same exhaustive case space and judged by TLC against ValidOrder",
             "Design: every run of the specified breadth-first edge ordering is a valid parent-before-child order for every tree <= 5 nodes and every listing (TLC exhaustive). Code: the real function is run on the identical exhaustive case space (2..5 nodes quick, ..6 thorough, larger sampled) and each observed order is judged by the TLA+ definition; exhaustiveness of the fed space is itself checked by TLC.",
             "Trusts TLC, the JSON bridge, and that trees with more than 6-8 nodes behave like the enumerated ones.", "4 (C08/C17)"),
+    "C13": ("TLA+ spec (FrameStream.tla) model-checked with TLC over all producer/consumer interleavings (safety + termination under fairness); every path of TLC's state graph forced on the real reader/consumer threads; free-running thread traces validated by Trace_FrameStream",
+            "Design: all interleavings of reader and batching consumer for n<=4 frames, capacity<=3, batch<=3 and a read fault at every position satisfy 8 safety invariants and terminate (TLC, exhaustive, liveness under weak fairness; a counter-model without the finally-sentinel must hang). Code: each maximal path of the dumped state graph is forced step by step on the real VideoReader/LabelsReader thread and the real Predictor._predict_generator with state comparison after every step; free-running runs with larger constants are recorded under the queue mutex and validated by TLC against the same actions.",
+            "Trusts TLC, the step scheduler (threads park at put/get/read/infer/join), FakeVideo/FakeLabels instead of real decoding; bounds n<=4 forced, n<=40 free.", "4 (C13)"),
 }
 ALL = ["C%02d" % i for i in range(1, 21)]
 NOT_YET = "check not built yet in this round (planned, see DESIGN.md section 4/8)"
